@@ -43,6 +43,9 @@ func main() {
 			fmt.Println("INCONCLUSIVE", err)
 			os.Exit(2)
 		}
+		for f, msg := range droppedOverlay {
+			fmt.Printf("REDUCED: harness file %s does not build against this tree and was left out (%s)\n", f, msg)
+		}
 		spec := HarnessSpec{Name: os.Args[2], Func: os.Args[2], Pkg: *pkg, Int: *intMode, Unwind: *unwind, Steps: *steps, Symbolic: *symb, TimeoutMs: *to, Solver: *solver, NoPrune: *noprune}
 		spec.SymFrom, spec.SymTo, spec.Policy = *symFrom, *symTo, *policy
 		spec.Race = *race
